@@ -523,3 +523,48 @@ def crowd(draw):
         arg = {"interrupt": "-2 %s" % draw(PRIOS), "stop": "3", "setprio": str(draw(st.sampled_from([2, -2, 0])))}[cmd]
         L.append("at %s %s %s p%d %s" % (fhex(t1), draw(PRIOS), cmd, draw(st.integers(1, n)), arg))
     return "\n".join(L) + "\n"
+
+
+@st.composite
+def churn(draw):
+    """Arrivals and departures of equal-priority waiters interleaved within ONE simulated instant.
+
+    A holder keeps a resource / pool / empty queue unavailable; at instant T several processes start
+    waiting (their start events carry generated priorities, so their order within the instant varies)
+    while dispatcher commands of generated priorities interrupt or stop some of those already waiting.
+    Afterwards the object is handed from waiter to waiter, one per instant, so that the order in which
+    the survivors are served is observable.
+    """
+    kind = draw(st.sampled_from(["res", "res", "pool", "oget"]))
+    T = 1.0
+    n = draw(st.integers(3, 7))
+    L = ["mode sim", "start 0"]
+    small = st.sampled_from([-3, -2, -1, 0, 1, 2, 3])
+    if kind == "res":
+        L += ["res R0", "proc p0 prio 0 start 0 sprio 9", "op acquire R0", "op hold %s" % fhex(T + 1.0), "op release R0"]
+        wscript = ["acquire R0", "hold 0x1p0", "release R0"]
+    elif kind == "pool":
+        cap = draw(st.integers(1, 2))
+        L += ["pool P0 %d" % cap, "proc p0 prio 0 start 0 sprio 9", "op pacq P0 %d" % cap, "op hold %s" % fhex(T + 1.0),
+              "op prel P0 %d" % cap]
+        wscript = ["pacq P0 1", "hold 0x1p0", "prel P0 1"]
+    else:
+        L += ["oq Q0 unlimited", "proc p0 prio 0 start 0 sprio 9", "op hold %s" % fhex(T + 1.0)]
+        for i in range(n):
+            L += ["op oput Q0 %d" % (i + 1), "op hold 0x1p0"]
+        wscript = ["oget Q0"]
+    for w in range(1, n + 1):
+        prio = draw(st.sampled_from([0, 0, 0, 0, 1]))
+        start = draw(st.sampled_from([T, T, T, 0.5, 0.0]))
+        L.append("proc p%d prio %d start %s sprio %d" % (w, prio, fhex(start), draw(small)))
+        if draw(st.integers(0, 6)) == 0:
+            L.append("op timer_add %s -5" % fhex(draw(st.sampled_from([T - start, T + 1.0 - start, 3.0]))))
+        for o in wscript:
+            L.append("op " + o)
+    for _ in range(draw(st.integers(1, 4))):
+        tgt = draw(st.integers(1, n))
+        if draw(st.integers(0, 3)) == 0:
+            L.append("at %s %d stop p%d 1" % (fhex(T), draw(small), tgt))
+        else:
+            L.append("at %s %d interrupt p%d -2 %d" % (fhex(T), draw(small), tgt, draw(st.sampled_from([9, 9, 0, -9]))))
+    return "\n".join(L) + "\n"
